@@ -99,7 +99,36 @@ def rule_accessors(ctx):
             pm = re.fullmatch(r"\((\w+),(\w+)\)", pat_)
             body_ = ";".join(A.render_stmt(x) for x in stmts_)
             b_ok = bool(pm) and "unnamed" in src_ and src_.endswith(".enumerate()") and f'format_ident!("field_{{}}",{pm.group(1)})' in body_.replace(" ", "") and f"&{pm.group(2)}.ty" in body_
-        need(ctx, f"{kind_}:binders", b_ok and "(quote!((#(#idents),*)),quote!((#(#idents),*)),types)" in gt, ctx.where(gi.file, gi.node), f"{kind_}: pattern binders, returned tuple and types no longer come from one enumerate over the variant's fields (same identifiers, same order)")
+            if not b_ok:
+                # the binders numbered by a range over the same fields, the types taken from the fields in order
+                rm = re.fullmatch(r"0\.\.(.+)\.unnamed\.len\(\)", src_)
+                pn = re.fullmatch(r"\w+", pat_)
+                b_ok = bool(rm) and bool(pn) and f'format_ident!("field_{{}}",{pat_})' in body_.replace(" ", "") and re.search(re.escape(rm.group(1)) + r"\.unnamed\.iter\(\)\.map\(\|(\w+)\|&\1\.ty\)", str(gt)) is not None
+        # the pattern and the returned tuple are the same binder list
+        al_g = {}
+        for st_, _ in A.find(gi.block, "Stmt::Local"):
+            ids_ = A.pat_idents(st_["pat"])
+            if len(ids_) == 1 and st_.get("init"):
+                al_g[ids_[0]] = st_["init"]["expr"]
+
+        def _tpl_of(e_, depth=0):
+            e_ = A.peel(e_)
+            if A.kind(e_) == "Expr::MethodCall" and e_["method"]["sym"] == "clone" and not e_["args"]:
+                return _tpl_of(e_["receiver"], depth)
+            if A.kind(e_) == "Expr::Macro" and A.path_last(e_["mac"]["path"]) == "quote":
+                return T.ir_text(T.to_ir(e_["mac"]["tokens"])).replace(" ", "")
+            if A.kind(e_) == "Expr::Path" and A.path_str(e_) in al_g and depth < 3:
+                return _tpl_of(al_g[A.path_str(e_)], depth + 1)
+            return None
+
+        tup_ok = False
+        for tp, _ in A.find(gi.block, "Expr::Tuple"):
+            if len(tp["elems"]) == 3:
+                a0, a1 = _tpl_of(tp["elems"][0]), _tpl_of(tp["elems"][1])
+                m0 = re.fullmatch(r"\(#\(#(\w+)\),\*\)", a0 or "")
+                if m0 and a0 == a1 and A.kind(A.peel(tp["elems"][2])) == "Expr::Path":
+                    tup_ok = True
+        need(ctx, f"{kind_}:binders", b_ok and tup_ok, ctx.where(gi.file, gi.node), f"{kind_}: pattern binders, returned tuple and types no longer come from one enumerate over the variant's fields (same identifiers, same order)")
         fb = A.get_fn(ctx.files, rel, "failed_block")
         ft = A.fn_text(fb)
         need(
@@ -550,7 +579,17 @@ def rule_delegation(ctx):
     t = A.fn_text(ar)
     tt = texts(ar)
     w = ctx.where(ar.file, ar.node)
-    need(ctx, "as:member", "let field_ident=self.field.ident.as_ref().map_or_else(||Either::Right(syn::Index::from(self.field_index)),Either::Left)" in t and "&#mut_self.#field_ident" in tt, w, "AsRef/AsMut no longer borrow the field under its own name / original index")
+    # the borrowed member is `self.<x>` with x built from the field's own identifier, else from its *original* index
+    # (`Either`, `syn::Member`, `match`, `map_or_else` .. alike): the initialiser of the interpolated selector names
+    # `self.field.ident` and exactly one index, `Index::from(self.field_index)`
+    mem_ok = False
+    for t_ in T.templates_both(ar):
+        m_ = re.fullmatch(r"&#(\w+)self\.#(\w+)", T.ir_text(t_.ir).replace(" ", ""))
+        if m_:
+            inits_ = [A.render(st_["init"]["expr"]).replace(" ", "") for st_, _ in A.find(ar.block, "Stmt::Local") if st_.get("init") and A.pat_idents(st_["pat"]) == [m_.group(2)]]
+            if inits_ and all("self.field.ident" in i_ and i_.count("Index::from(") == 1 and "Index::from(self.field_index)" in i_ for i_ in inits_):
+                mem_ok = True
+    need(ctx, "as:member", mem_ok, w, "AsRef/AsMut no longer borrow the field under its own name / original index")
     need(
         ctx,
         "as:kind-decision",
